@@ -2,6 +2,7 @@ import FluentProofs.ConstTieSyntax
 import FluentProofs.ParserLines
 import FluentProofs.ParserValid
 import FluentProofs.ParserValidEntry
+import FluentProofs.ParserLocalTop
 /-!
 # C03 — syntax errors are contained: Junk accounting and per-entry recovery
 
@@ -33,9 +34,13 @@ Proved here (accounting part of the property, both parsers):
 * `C03_admitted_entries_valid…` (second half of this file): every admitted message or term satisfies the
   AST-visible documented rules (`ValidEntry`), for every source and both parsers.
 
+* `C03_containment…` (last section of this file): the containment sentence — damaging one entry of a well-formed
+  resource leaves every other message and term parsed exactly as before (`C03_containment`, `C03_containment_runtime`,
+  `C03_suffix_independence…`, `C03_prefix_independence…`, `String` corollary `C03_containment_string`).
+
 Not a Lean theorem (checked by the correspondence harness and the property predicate on the
-implementation): containment of a damaged entry (every OTHER entry parses exactly as before), and the three
-rules the tree cannot show (positional-after-named order, literal-ness of named values, commas).
+implementation): the three rules the tree cannot show (positional-after-named order, literal-ness of named
+values, commas).
 -/
 namespace FluentProofs.C03
 open FluentModel.Syntax
@@ -238,5 +243,231 @@ example : (let s : Src := #[97, 32, 61, 32, 123, 32, 36, 120, 32, 45, 62, 10, 32
     FluentProofs.Parser.validEntry s
       (.message ⟨⟨0, 1⟩, some [.placeable (.select (.var ⟨7, 8⟩) [.mk (.ident ⟨14, 15⟩) [.text ⟨17, 18⟩] false])], [], none⟩))
     = false := by decide +kernel
+
+/-! ## C03, last sentence: containment — damaging one entry leaves every other message and term as before
+
+Setting.  A resource is cut at two line starts into `A ++ X ++ B`:
+* `A` — the entries before the damaged one: empty or ending with a line feed (`EndsNl A`), and well-formed
+  (`parse A` reports no error);
+* `X` — the damaged entry: ANY byte string that ends with a line feed and whose first byte is a `stopByte`, i.e. anything
+  but a space, LF, CR, `#`, `.`, `{` or a UTF-8 continuation byte (`Damage X`; a letter or `-` in particular, but also a
+  damaged first byte such as a digit or `}`; everything after the first byte is arbitrary — every kind of damage at every
+  placement — and `X` may span any number of lines);
+* `B` — the text after it: it starts, at column 0, with an entry head (`Head B`: a letter or `-`, then only
+  identifier bytes `[a-zA-Z0-9_-]` and spaces up to an `=`; `identifier blank_inline* "="` and
+  `"-" identifier blank_inline* "="` are of this form).  NOTHING else is assumed about `B` (it may itself contain errors).
+
+Excluded, and why: an `X` or `B` that starts with `#` (comment blocks merge, a comment attaches to the next message), an
+`X` that starts with a space, line break, `.` or `{` (such a line continues the pattern / attribute list of the entry
+before it: it is damage to THAT entry), and an `A` whose own parse has errors (its junk recovery may already depend on
+what follows).
+
+Claim (`C03_containment`): the body of `parse (A ++ X ++ B)` is `body' ++ mid ++ B'` where `body'` depends on `A` only (it
+is `A`'s body; a trailing standalone comment of `A`, still pending when `X` begins, is the `lc'` of
+`bodyA = body' ++ flushC lc'`), `mid` is whatever `X` produced, and `B'` is EXACTLY the body of `parse B` with every
+position moved by `|A| + |X|` — except that a comment pending at the end of `X` is attached to / put before `B`'s first
+entry (`attachO`; `lc = none` when `X` does not end in a comment).  The error list is: errors of the `X` region, then the
+errors of `parse B`, moved; the Junk spans and error slices of the `X` region lie inside `[|A|, |A| + |X|]`.  Same for `parseRuntime` without the comment caveats.  So two different damages `X`, `X'` of the
+same entry give the same entries from `A`, and the same entries from `B` up to the shift `|X'| - |X|`
+(`C03_containment_msgsTerms`).  No hypothesis on fuel: the statement is for every byte source on which the parsers finish;
+for `String`s they always do (`C03_containment_string`).
+
+Proof (`FluentProofs/ParserLocal*.lean`, three joint inductions over all parser functions):
+* shift (`parseLoop_shift`): on `P ++ s` from cursor `|P| + p` every function does what it does on `s` from `p`, moved by `|P|`;
+* barrier (`parseLoop_reach`): with an entry head at line start `n`, no function started before `n` gets past the `=`; a
+  successful entry ends `≤ n`, a failing one reports a cursor `≤` the `=`, and junk recovery (which rewinds to the start of
+  the line holding the error) stops at `n`: the entry loop arrives at `n` exactly, whatever precedes;
+* prefix (`parseLoop_prefix`): a successful entry-level run on `A` is reproduced verbatim on `A ++ Z` when `Z` starts with a
+  `stopByte` — peeking such a byte at a line start is the same as peeking the end of input. -/
+
+open FluentProofs.Parser in
+/-- the containment statement (proved below: `C03_containment`) -/
+def C03_containment_statement : Prop :=
+  ∀ (A : Src), EndsNl A → ∀ bodyA : Resource Span, parse A = .done (bodyA, []) →
+    ∃ body' lc', bodyA = body' ++ flushC lc' ∧
+      ∀ X B : Src, Damage X → Head B → ∀ r rB, parse (A ++ X ++ B) = .done r → parse B = .done rB →
+        ∃ mid errsMid lc cnt,
+          r = (body' ++ mid ++ attachO lc cnt (rB.1.map (shEntry (A.size + X.size))),
+               errsMid ++ rB.2.map (shErr (A.size + X.size))) ∧
+          (∀ sp ∈ junkSpans mid, A.size ≤ sp.start ∧ sp.stop ≤ A.size + X.size) ∧
+          (∀ e ∈ errsMid, ∃ a b, e.slice = some (a, b) ∧ A.size ≤ a ∧ b ≤ A.size + X.size)
+
+open FluentProofs.Parser in
+/-- **C03 containment (full parser), every byte source on which `parse` finishes.** -/
+theorem C03_containment : C03_containment_statement :=
+  fun _ hA _ hpA => parse_containment hA hpA
+
+open FluentProofs.Parser in
+/-- **C03 containment (runtime parser)**: the body of `parseRuntime (A ++ X ++ B)` is the body of `parseRuntime A`, then what
+`X` produced, then the body of `parseRuntime B` moved by `|A| + |X|`; the errors are those of the `X` region, then those of
+`B`, moved. -/
+theorem C03_containment_runtime {A X B : Src} (hA : EndsNl A) (hX : Damage X) (hB : Head B)
+    {bodyA : Resource Span} {r rB : Resource Span × List PErr}
+    (hpA : parseRuntime A = .done (bodyA, [])) (hpB : parseRuntime B = .done rB)
+    (h : parseRuntime (A ++ X ++ B) = .done r) :
+    ∃ mid errsMid,
+      r = (bodyA ++ mid ++ rB.1.map (shEntry (A.size + X.size)), errsMid ++ rB.2.map (shErr (A.size + X.size))) ∧
+      (∀ sp ∈ junkSpans mid, A.size ≤ sp.start ∧ sp.stop ≤ A.size + X.size) ∧
+      (∀ e ∈ errsMid, ∃ a b, e.slice = some (a, b) ∧ A.size ≤ a ∧ b ≤ A.size + X.size) :=
+  parseRuntime_containment hA hpA hX hB h hpB
+
+open FluentProofs.Parser in
+/-- **suffix independence (full parser)**: `P` is ANY byte string that is empty or ends with a line feed (no
+well-formedness assumed: `P` = the entries before + the damaged entry), `B` starts with an entry head.  The parse of
+`P ++ B` is some entries / errors produced inside `P` (Junk spans and error slices end at or before `|P|`), followed by
+exactly the parse of `B` moved by `|P|` (a comment pending at the end of `P` attached to `B`'s first entry). -/
+theorem C03_suffix_independence {P B : Src} (hP : EndsNl P) (hB : Head B) {r rB : Resource Span × List PErr}
+    (h : parse (P ++ B) = .done r) (hpB : parse B = .done rB) :
+    ∃ pre preErrs lc cnt,
+      r = (pre ++ attachO lc cnt (rB.1.map (shEntry P.size)), preErrs ++ rB.2.map (shErr P.size)) ∧
+      (∀ sp ∈ junkSpans pre, sp.stop ≤ P.size) ∧
+      (∀ e ∈ preErrs, ∃ a b, e.slice = some (a, b) ∧ b ≤ P.size) :=
+  parse_suffix hP hB h hpB
+
+open FluentProofs.Parser in
+/-- **suffix independence (runtime parser)** -/
+theorem C03_suffix_independence_runtime {P B : Src} (hP : EndsNl P) (hB : Head B) {r rB : Resource Span × List PErr}
+    (h : parseRuntime (P ++ B) = .done r) (hpB : parseRuntime B = .done rB) :
+    ∃ pre preErrs, r = (pre ++ rB.1.map (shEntry P.size), preErrs ++ rB.2.map (shErr P.size)) ∧
+      (∀ sp ∈ junkSpans pre, sp.stop ≤ P.size) ∧
+      (∀ e ∈ preErrs, ∃ a b, e.slice = some (a, b) ∧ b ≤ P.size) :=
+  parseRuntime_suffix hP hB h hpB
+
+open FluentProofs.Parser in
+/-- **prefix independence (full parser)**: a well-formed `A` gives the same entries `body'` in front of EVERY continuation
+`Z` that is empty or starts with a `stopByte` (e.g. a letter or `-`); everything else in the parse of `A ++ Z` is produced by the entry loop
+started at `|A|` (with `A`'s trailing standalone comment `lc'`, if any, still pending).  With `Z = X` this is the containment
+statement for a damaged LAST entry. -/
+theorem C03_prefix_independence {A : Src} (hA : EndsNl A) {bodyA : Resource Span} (hpA : parse A = .done (bodyA, [])) :
+    ∃ body' lc', bodyA = body' ++ flushC lc' ∧
+      ∀ Z : Src, StopOrEmpty Z → ∀ r, parse (A ++ Z) = .done r →
+        ∃ N cnt r₀, parseLoop (A ++ Z) (exprFuel (A ++ Z)) N [] [] lc' cnt A.size = .done r₀ ∧
+          r = (body' ++ r₀.1, r₀.2) :=
+  parse_prefix hA hpA
+
+open FluentProofs.Parser in
+/-- **prefix independence (runtime parser)** -/
+theorem C03_prefix_independence_runtime {A : Src} (hA : EndsNl A) {bodyA : Resource Span}
+    (hpA : parseRuntime A = .done (bodyA, [])) {Z : Src} (hZ : StopOrEmpty Z) {r : Resource Span × List PErr}
+    (h : parseRuntime (A ++ Z) = .done r) :
+    ∃ N r₀, parseRuntimeLoop (A ++ Z) (exprFuel (A ++ Z)) N [] [] A.size = .done r₀ ∧ r = (bodyA ++ r₀.1, r₀.2) :=
+  parseRuntime_prefix hA hpA hZ h
+
+open FluentProofs.Parser in
+/-- **two damages of the same entry, messages and terms only** (`msgsTerms` drops comments and Junk and strips attached
+comments): both parses have the messages/terms of `A`, then those of the damaged region, then those of `B` — identical up
+to the shift `|A| + |X|` vs `|A| + |X'|`. -/
+theorem C03_containment_msgsTerms {A X X' B : Src} (hA : EndsNl A) (hX : Damage X) (hX' : Damage X') (hB : Head B)
+    {bodyA : Resource Span} {r r' rB : Resource Span × List PErr}
+    (hpA : parse A = .done (bodyA, [])) (hpB : parse B = .done rB)
+    (h : parse (A ++ X ++ B) = .done r) (h' : parse (A ++ X' ++ B) = .done r') :
+    ∃ mid mid' : List (Entry Span),
+      msgsTerms r.1 = msgsTerms bodyA ++ mid ++ (msgsTerms rB.1).map (shEntry (A.size + X.size)) ∧
+      msgsTerms r'.1 = msgsTerms bodyA ++ mid' ++ (msgsTerms rB.1).map (shEntry (A.size + X'.size)) := by
+  obtain ⟨body', lc', heq, H⟩ := parse_containment hA hpA
+  obtain ⟨mid, em, lc, cnt, rfl, _⟩ := H X B hX hB r rB h hpB
+  obtain ⟨mid', em', lc2, cnt2, rfl, _⟩ := H X' B hX' hB r' rB h' hpB
+  refine ⟨msgsTerms mid, msgsTerms mid', ?_, ?_⟩ <;>
+    simp only [heq, msgsTerms_append, msgsTerms_flushC, msgsTerms_attachO, msgsTerms_map_sh, List.append_nil]
+
+/-- the UTF-8 bytes of a concatenation -/
+theorem toUTF8_append3 (A X B : String) :
+    (A ++ X ++ B).toUTF8.data = A.toUTF8.data ++ X.toUTF8.data ++ B.toUTF8.data := by
+  simp [String.toUTF8, String.toByteArray_append, ByteArray.data_append]
+
+open FluentProofs.Parser in
+/-- **C03 containment for `String`s**: all three parses finish (C01); if `A` is well-formed, the parse of `A ++ X ++ B` is
+`A`'s entries, the damaged region's entries (its Junk and errors located inside the region), and exactly `B`'s parse moved
+by `|A| + |X|` bytes. -/
+theorem C03_containment_string (A X B : String) (hA : EndsNl A.toUTF8.data) (hX : Damage X.toUTF8.data)
+    (hB : Head B.toUTF8.data) (hok : ∃ bodyA, parse A.toUTF8.data = .done (bodyA, [])) :
+    ∃ bodyA rB r mid errsMid lc cnt body' lc',
+      parse A.toUTF8.data = .done (bodyA, []) ∧ parse B.toUTF8.data = .done rB ∧
+      parse (A ++ X ++ B).toUTF8.data = .done r ∧ bodyA = body' ++ flushC lc' ∧
+      r = (body' ++ mid ++ attachO lc cnt (rB.1.map (shEntry (A.toUTF8.data.size + X.toUTF8.data.size))),
+           errsMid ++ rB.2.map (shErr (A.toUTF8.data.size + X.toUTF8.data.size))) ∧
+      (∀ sp ∈ junkSpans mid, A.toUTF8.data.size ≤ sp.start ∧ sp.stop ≤ A.toUTF8.data.size + X.toUTF8.data.size) ∧
+      (∀ e ∈ errsMid, ∃ a b, e.slice = some (a, b) ∧ A.toUTF8.data.size ≤ a ∧
+        b ≤ A.toUTF8.data.size + X.toUTF8.data.size) := by
+  obtain ⟨bodyA, hpA⟩ := hok
+  obtain ⟨⟨bB, eB, hpB, _⟩, _⟩ := C03_full_string B
+  obtain ⟨⟨b, e, hp, _⟩, _⟩ := C03_full_string (A ++ X ++ B)
+  obtain ⟨body', lc', heq, H⟩ := parse_containment hA hpA
+  rw [toUTF8_append3] at hp
+  obtain ⟨mid, em, lc, cnt, hr⟩ := H _ _ hX hB (b, e) (bB, eB) hp hpB
+  exact ⟨bodyA, (bB, eB), (b, e), mid, em, lc, cnt, body', lc', hpA, hpB, by rw [toUTF8_append3]; exact hp, heq, hr⟩
+
+/-! ### non-vacuity (tests on literals, not the unbounded claim)
+
+`a = 1⏎`, then `b = { $x ->⏎ [one] x⏎ }⏎` (a select without default variant: the damaged entry), then `c = 3⏎`. -/
+
+/-- `a = 1⏎` -/
+def exA : Src := #[97,32,61,32,49,10]
+/-- `b = { $x ->⏎ [one] x⏎ }⏎` -/
+def exX : Src := #[98,32,61,32,123,32,36,120,32,45,62,10, 32,91,111,110,101,93,32,120,10, 32,125,10]
+/-- the undamaged `b = 2⏎` -/
+def exY : Src := #[98,32,61,32,50,10]
+/-- `c = 3⏎` -/
+def exB : Src := #[99,32,61,32,51,10]
+
+open FluentProofs.Parser in
+theorem exA_endsNl : EndsNl exA := Or.inr (by decide +kernel)
+open FluentProofs.Parser in
+theorem exX_damage : Damage exX := ⟨⟨98, by decide +kernel, by decide +kernel⟩, by decide +kernel⟩
+open FluentProofs.Parser in
+theorem exY_damage : Damage exY := ⟨⟨98, by decide +kernel, by decide +kernel⟩, by decide +kernel⟩
+
+/-- `1b = 2⏎`: the FIRST byte of the entry damaged (an identifier cannot start with a digit) -/
+def exZ : Src := #[49,98,32,61,32,50,10]
+open FluentProofs.Parser in
+theorem exZ_damage : Damage exZ := ⟨⟨49, by decide +kernel, by decide +kernel⟩, by decide +kernel⟩
+open FluentProofs.Parser in
+theorem exB_head : Head exB := by
+  refine ⟨2, Or.inl rfl, by decide, ⟨99, by decide +kernel, by decide⟩, ?_, by decide +kernel⟩
+  intro i _ h2
+  have : i = 0 ∨ i = 1 := by omega
+  rcases this with rfl | rfl
+  · exact ⟨99, by decide +kernel, Or.inl (by decide)⟩
+  · exact ⟨32, by decide +kernel, Or.inr rfl⟩
+
+/-- test: the damaged resource parses to message `a`, ONE Junk `6..30` (exactly the damaged entry), message `c` at `30..` -/
+example : (match parse (exA ++ exX ++ exB) with
+    | .done ([.message ⟨⟨0, 1⟩, some [.text ⟨4, 5⟩], [], none⟩, .junk ⟨6, 30⟩,
+              .message ⟨⟨30, 31⟩, some [.text ⟨34, 35⟩], [], none⟩], [e]) => e.slice == some (6, 30)
+    | _ => false) = true := by decide +kernel
+
+/-- test: the undamaged resource: `a`, `b`, and `c` at `12..` — the same `c` moved by `|X'| - |X| = -18` -/
+example : (match parse (exA ++ exY ++ exB) with
+    | .done ([.message ⟨⟨0, 1⟩, some [.text ⟨4, 5⟩], [], none⟩, .message ⟨⟨6, 7⟩, some [.text ⟨10, 11⟩], [], none⟩,
+              .message ⟨⟨12, 13⟩, some [.text ⟨16, 17⟩], [], none⟩], []) => true
+    | _ => false) = true := by decide +kernel
+
+/-- test: damage to the first byte (`1b = 2`): `a`, ONE Junk `6..13`, and `c` at `13..` -/
+example : (match parse (exA ++ exZ ++ exB) with
+    | .done ([.message ⟨⟨0, 1⟩, some [.text ⟨4, 5⟩], [], none⟩, .junk ⟨6, 13⟩,
+              .message ⟨⟨13, 14⟩, some [.text ⟨17, 18⟩], [], none⟩], [e]) => e.slice == some (6, 13)
+    | _ => false) = true := by decide +kernel
+
+open FluentProofs.Parser in
+/-- test: the hypotheses of `C03_containment_msgsTerms` are satisfiable — instantiated on the literals above it yields that
+both parses have message `a` first and message `c` last (at `30..` resp. `12..`). -/
+example : ∃ (r r' : Resource Span × List PErr) (mid mid' : List (Entry Span)),
+    parse (exA ++ exX ++ exB) = .done r ∧ parse (exA ++ exY ++ exB) = .done r' ∧
+    msgsTerms r.1 = [.message ⟨⟨0, 1⟩, some [.text ⟨4, 5⟩], [], none⟩] ++ mid ++
+      [.message ⟨⟨30, 31⟩, some [.text ⟨34, 35⟩], [], none⟩] ∧
+    msgsTerms r'.1 = [.message ⟨⟨0, 1⟩, some [.text ⟨4, 5⟩], [], none⟩] ++ mid' ++
+      [.message ⟨⟨12, 13⟩, some [.text ⟨16, 17⟩], [], none⟩] := by
+  have hA : parse exA = .done ([.message ⟨⟨0, 1⟩, some [.text ⟨4, 5⟩], [], none⟩], []) := by with_unfolding_all rfl
+  have hB : parse exB = .done ([.message ⟨⟨0, 1⟩, some [.text ⟨4, 5⟩], [], none⟩], []) := by with_unfolding_all rfl
+  have fin : ∀ s : Src, (match parse s with | .done _ => true | _ => false) = true → ∃ r, parse s = .done r := by
+    intro s h
+    cases hp : parse s with
+    | done r => exact ⟨r, rfl⟩
+    | panic m => rw [hp] at h; cases h
+    | outOfFuel => rw [hp] at h; cases h
+  obtain ⟨r, hr⟩ := fin (exA ++ exX ++ exB) (by decide +kernel)
+  obtain ⟨r', hr'⟩ := fin (exA ++ exY ++ exB) (by decide +kernel)
+  obtain ⟨mid, mid', h1, h2⟩ := C03_containment_msgsTerms exA_endsNl exX_damage exY_damage exB_head hA hB hr hr'
+  exact ⟨r, r', mid, mid', hr, hr', h1, h2⟩
 
 end FluentProofs.C03
